@@ -6,3 +6,6 @@ package verifhook
 
 // Point is a no-op without the "verif" build tag.
 func Point(name string) {}
+
+// Data is a no-op without the "verif" build tag.
+func Data(name string, args ...any) {}
